@@ -12,19 +12,29 @@ LEVEL_TEXT = ("Proved in Coq by induction over ALL request histories from the in
               "of every backend call): C05_inv (refs = #fid-table entries + #transient holders + #live children + #live xattr borrowers; the DecRef "
               "cascade never runs out of fuel - no acyclicity needed), File ownership (every returned handle owned by exactly one fidRef, xattr fidRefs "
               "borrow), C05_closed_once, C05_closed_iff_unreferenced, C05_no_use_after_close for every File method incl. Renamed, C05_error_paths "
-              "for Twalk/Twalkgetattr and for Tattach (every failing component, every reason: each File handed out during the failing request is "
-              "closed exactly once when it is answered), C05_stop_empties_table, and C05_disconnect: after the stop of every connection holding a "
-              "fid no fid is bound and every File ever returned is closed exactly once - under the hypothesis [ranked] (parent links of live fidRefs "
-              "well founded; false for backends violating B2; PROVED for every history without Trename/Trenameat - C05_disconnect_rename_free has no hypothesis - NOT discharged for histories with renames). Every run re-checks the proofs, replays generated histories on "
-              "the real server (failure injected at every backend-call index of the corpus, connection cut after every byte of short sessions, fid "
-              "replacement, xattr fids, create-rebinding) plus gated concurrent scenarios (rename while a child's last DecRef is parked in Close; "
-              "rename whose Renamed callback overlaps a disconnect; see C08 for unlink vs walk), evaluates the lifecycle predicate on the observed "
-              "backend call log, Handle's return and the goroutine count, and compares replies, call logs and the path tree with the model.")
-LEVEL_NOTE = ("Sequential model: requests are handled one at a time (in-flight interleavings are the subject of C06/C07/C16; specific interleavings "
-              "are exercised by gated scenarios and judged on the observed log only). Partial in Coq: C05_disconnect keeps the hypothesis [ranked] "
-              "(implied by parent id < child id, proved for rename-free histories; with renames it needs B2, tree_inv (proved), tree_closed and 'detached nodes "
-              "stay detached' (not proved) - see coq/Refs/HANDOVER.md); the Go branch !valid.Mode of Tattach is covered as the GetAttr-error exit "
-              "only. Handle returning / no goroutine left are observed on the real code only. The model is tied to the Go code by the differential only.")
+              "for Twalk/Twalkgetattr and Tattach (every failing component, every reason). C05_disconnect (after the stop of every connection "
+              "holding a fid no fid is bound and every File ever returned is closed exactly once): proved without hypothesis for every backend "
+              "and every history without Trename/Trenameat (C05_disconnect_rename_free) and for EVERY PathFS history, renames included "
+              "(C05_disconnect_pathfs: assumption B2 is discharged from the backend's own refusal, pathB's path coherence and C08_tree_inv; the "
+              "path-tree panics are excluded); for an arbitrary backend under the condition [rsafe] on its renames (C05_disconnect_rsafe); "
+              "C05_disconnect_refuted shows by computation that without B2 two fidRefs become each other's parent and their Files leak. Every run "
+              "re-checks the proofs, replays generated histories on the real server (failure injected at every backend-call index of the corpus, "
+              "connection cut after every byte of short sessions, fid replacement, xattr fids, create-rebinding) plus gated concurrent scenarios "
+              "(rename while a child's last DecRef is parked in Close; rename whose Renamed callback overlaps a disconnect), evaluates the stated "
+              "clauses on the observed backend call log independently of the model, and compares replies, call logs and the path tree with the model.")
+LEVEL_NOTE = ("What is what. PROVED for the model (history theorems, every backend): count invariant, closed at most once, closed iff "
+              "unreferenced, no call on a File after its Close (as receiver or argument, Renamed included), failing walk/attach closes what it "
+              "opened, disconnect as stated in the level text. ONE-REQUEST theorems (any state satisfying the invariant; not history theorems): "
+              "C05_inv_step, C05_cascade, C05_fuel_suffices, C05_stop_empties_table; C05_walk_one_handles and the primitive theorems are one-step "
+              "unfoldings of the model's walkOne / primitives. TESTED on the real code on every run (Cases.property_holds, evaluated on the observed "
+              "call log only, no model involved): no File used after its Close or closed twice; after a complete disconnect every File closed "
+              "exactly once, Handle returned, goroutine delta 0; a Twalk/Tattach answered with an error has closed every File it was handed. A "
+              "history on which the implementation and the model disagree (replies, per-request call log, path-tree dump) is reported as a "
+              "VIOLATION with that history as replay. NOT covered: interleavings beyond the gated scenarios (sequential model; C06/C07/C16), B2 for "
+              "backends other than PathFS (hypothesis [rsafe]: relating a backend's notion of 'below' to the server's tree is path coherence, "
+              "proved for PathFS only), the Tattach branch !valid.Mode (same exit as a GetAttr error). The harness reads unexported fields "
+              "(pathNode.childRefs/childRefNames/childNodes/deleted, fidRef.file, server.pathTree): renaming one breaks its compilation and is "
+              "reported as a violation. The model is tied to the Go code by the differential only.")
 DESIGN_REF = "6/C05"
 ASSUMPTIONS = [
     "requests of all connections are processed one at a time (sequential model); Go map iteration order only permutes Renamed/Close runs",
